@@ -192,4 +192,6 @@ def run(c, facts):
     c.run(lambda c: I.occurs_existential(c, facts, c.rule('C07.R8', 'OCCURS-ANY: the occurs check is existential over nested tags')))
     c.run(lambda c: constraint_census(c, facts))
     c.run(lambda c: kind_table(c, facts))
+    R21 = c.rule('C07.R21', 'NAMES-STRUCTURAL: a scope key keeps the identifier as written (marker included) and the qualifier apart, so renaming identifiers consistently cannot change which names clash or resolve (shared with C08.R10)')
+    c.shared(R21, c08.r10_names_structural, 'C08.R10', facts)
     c.run(lambda c: I.pre_tag(c, facts, c.rule('C07.R5', 'PRE-TAG: declarations tagged before traversal')))
